@@ -40,6 +40,7 @@ FAMILIES_QUICK = [
     ("K", "degC", "m"),          # temperature: K/R refusal, offset guard
     ("rad", "degree", "s"),      # angle
     ("dimensionless", "percent", "m"),  # the first operand itself dimensionless
+    ("delta_degF", "degC", "m"),  # temperature difference + point of another scale: the first operand is rescaled
 ]
 
 VALS = {
@@ -372,6 +373,8 @@ def kernel_values(E, case, objs, factor, fsz, mul):
             b = strip(E, objs["b"])
             if case.get("swapped"):
                 a, b = b, a
+            if case.get("factor0") is not None:
+                a = np.asarray(a) * case["factor0"]
             if factor is not None:
                 b = np.asarray(b, dtype=f"f{fsz}") * np.dtype(f"f{fsz}").type(factor)
             if form == "outer":
@@ -751,7 +754,11 @@ class Ufuncs:
             return
         res = st[1]
         unit = None if rep[1] == "none" else (core.b2f(rep[1]), core.b2f(rep[2]), rep[3])
-        factor = None if rep[4] == "none" else core.b2f(rep[4])
+        factor0 = None
+        if rep[4].startswith("first:"):
+            factor0, factor = core.b2f(rep[4][6:]), None
+        else:
+            factor = None if rep[4] == "none" else core.b2f(rep[4])
         fsz = None if rep[5] == "none" else int(rep[5])
         mul = core.b2f(rep[6])
         early = rep[7]
@@ -774,6 +781,7 @@ class Ufuncs:
             c2 = dict(c)
             c2["ufunc"] = c["dispatch_ufunc"]
             c2["retyped"] = ("R",) in effects
+            c2["factor0"] = factor0
             want_vals = kernel_values(E, c2, self.fresh(c), factor, fsz, mul)
         except Exception as e:  # noqa: BLE001
             chk.count("kernel-values-unavailable:" + type(e).__name__)
